@@ -36,6 +36,12 @@ CONSTRAINTS = {
     "and_or": '<start> ::= <d> "," <e>\n<d> ::= "1" | "2"\n<e> ::= "1" | "2"\nwhere int(<d>) >= 2 or (int(<e>) == 1 and int(<d>) == 1)\n',
     "selectors": '<start> ::= <r> ";" <r>\n<r> ::= <x> "," <x>\n<x> ::= "1" | "2"\nwhere str(<start>.<r>[0]) == "1,1"\nwhere len(<start>..<x>) == 4\n',
     "quantifier": '<start> ::= <x>+\n<x> ::= "1" | "2"\nwhere forall <e> in <start>.<x>: int(<e>) >= 1\nwhere exists <e> in <start>.<x>: int(<e>) == 2\n',
+    "and_of_or": '<start> ::= <d> "," <e>\n<d> ::= "1" | "2"\n<e> ::= "1" | "2"\nwhere int(<d>) >= 2 and (int(<e>) == 1 or int(<d>) == 1)\n',
+    "slice_prefix": '<start> ::= <x>{3}\n<x> ::= "1" | "2"\nwhere str(<start>[:2]) == "12"\n',
+    "ifexp_operand": '<start> ::= <x> "," <x>\n<x> ::= "1" | "2"\nwhere (1 if str(<start>) == "1,1" else 2) == 2\n',
+    "computed_bound": '<start> ::= <n> ":" <i>{int(<n>)}\n<n> ::= "1" | "2"\n<i> ::= "a"\n',
+    "minimizing": '<start> ::= <x>\n<x> ::= "1" | "2"\nminimizing int(<x>)\n',
+    "generator_args": '<start> ::= <n> "=" <d>\n<n> ::= "1" | "2"\n<d> ::= r"[0-9]+" := str(int(<n>) * 2)\n',
     "star_len": '<start> ::= <x>{1,3}\n<x> ::= "a" | "b"\nwhere len(*<start>.<x>) >= 2\nwhere |<start>.<x>| <= 3\n',
 }
 ALPHABET = ["a", "'", '"', "\\", "\n", "\x00", "é", "€", "\xff", "{", "<"]
@@ -107,6 +113,20 @@ def run(tier="quick", seed=0, pid="C15"):
         if not same:
             diff = sorted(a ^ b, key=repr)[:2]
             report(name, "language_changed", f"printed as {printed!r}; differing words e.g. {diff}", text)
+        if g.generators:
+            # a printed generator must still be a generator: fuzzing the re-read grammar works and gives words of the original
+            for sd in range(4):
+                random.seed(rnd.randint(0, 10 ** 9))
+                evaluations += 1
+                try:
+                    t2 = g2.fuzz()
+                    back = g.parse(t2.to_string())
+                except Exception as e:
+                    report(name, "printed_generator_not_usable", f"fuzzing the re-read grammar raises {type(e).__name__}; printed {printed!r}", text)
+                    break
+                if back is None:
+                    report(name, "printed_generator_changes_output", f"the re-read grammar generates {t2.to_string()!r}, not a word of the original", text)
+                    break
         if len(cs) != len(cs2):
             report(name, "constraint_count_changed", f"{len(cs)} constraints printed, {len(cs2)} read back", text)
         elif cs:
